@@ -19,6 +19,7 @@ start and end in different whole microseconds; gauges of ANY length):
   gauges lag (`C12_long_gauge_lags`).
 -/
 import Canine.Proofs.StorageB
+import Canine.Generated.PureFns
 namespace Canine.Storage
 
 theorem send_single {b : Bank} {src dst d : String} {x : Int} (h0 : 0 < x) (h1 : x ≤ Bank.bal b src d) :
@@ -268,5 +269,26 @@ example : g30.coins = [("ujkl", 1000)] ∧ (0:Int) ≤ 1000 ∧ (1000:Int) ≤ I
     Bank.bal (gState [("g", g30)] [(("gacc", "ujkl"), 967)]).bank g30.account "ujkl" = 1000 - 33 ∧
     (33:Int) ≤ cumulative g30.startT g30.endT (t0 + 15 * dayNs) 1000 ∧
     g30.account ≠ (gState [("g", g30)] [(("gacc", "ujkl"), 967)]).moduleAcc := by decide
+
+/-! ## The release formula as it stands in the source (regenerated tie) -/
+
+/-- The amount `amt64` that `pullTokensFromGauges` moves out of a gauge — sliced out of
+x/storage/keeper/rewards.go and translated on every run, as a function of the gauge's start and
+end and the block time in whole microseconds, the recorded amount and the gauge account's
+balance — is the expression the model's `pullGauge` evaluates (and `C12_release_formula`,
+`C12_cumulative_is_linear` are about): `trunc((1 − left/total)·A − (A − balance))`, with the
+same inputs and nothing else. -/
+theorem C12_generated_release_amount_is_the_model (startT endT now A bal : Int) :
+    Generated.Pure.pullTokensFromGauges_amt64 (Int.tdiv endT 1000) (Int.tdiv now 1000) (Int.tdiv startT 1000) A bal =
+      (Dec.quo? (Dec.ofInt (leftUs endT now)) (Dec.ofInt (totalUs startT endT))).map
+        (fun q => Dec.trunc (Dec.sub (Dec.mul (Dec.sub Dec.one q) (Dec.ofInt A)) (Dec.ofInt (A - bal)))) ∧
+    Generated.Pure.pullTokensFromGauges_amt64_inputs =
+      ["pg.End.UnixMicro()", "currentTime.UnixMicro()", "pg.Start.UnixMicro()", "coin.Amount",
+       "gaugeBalance.AmountOf(coin.Denom)"] := by
+  refine ⟨?_, rfl⟩
+  unfold Generated.Pure.pullTokensFromGauges_amt64 leftUs totalUs
+  simp only [bind, Option.bind]
+  cases Dec.quo? (Dec.ofInt (Int.tdiv endT 1000 - Int.tdiv now 1000))
+    (Dec.ofInt (Int.tdiv endT 1000 - Int.tdiv startT 1000)) <;> rfl
 
 end Canine.Storage
